@@ -194,3 +194,43 @@ def check_C14(res, replay):
                     "half well-formed files (all 118 symbols; spaces, tabs, blank lines, CRLF, exponent/sign/bare-point spellings, trailing columns), half corruptions of them "
                     "(dropped/duplicated/swapped fields, non-numeric fields, unknown symbols, extra or missing header lines, truncated body, invalid UTF-8 bytes) plus a fixed corpus of "
                     "edge files; outcome canonicalised as err | ok [(Z, x bits, y bits, z bits)]", extra_audit=XYZ_AUDIT)
+
+
+# ---------------------------------------------------------------------------------------------------- C07
+
+def check_C07(res, replay):
+    res.trusted = TB_COMMON + ["hand model OptRs.Model.FFObj of UFF/RB as objects (cached energy, reused gradient buffer)",
+                               "Rust type system: Forcefield::energy/gradient take &[Point] (cannot modify the coordinates they are given)",
+                               "axioms audited: subset of {propext, Classical.choice, Quot.sound}"]
+    res.assumptions = ["numerical_gradient and optimise reach the object only through energy/gradient calls (true of the trait object interface), so histories of the four "
+                       "request kinds are histories of primitive requests; the recorder wrapper logs exactly those",
+                       "bit-for-bit: both sides of each theorem are the same expression tree over the same operations"]
+    return standard(res, ["tables", "terms"], ["OptRs.Props.C07"], [("history", [], "history")], "proof",
+                    "lake build OptRs.Props.C07 + #print axioms audit",
+                    "per molecule and force field one object serves a random history of 4-40 requests (energy, gradient, numerical gradient, 20-step optimise) at "
+                    "different distorted geometries; every primitive answer is compared with a fresh object's (oracle) and with the model object started from a "
+                    "deliberately dirty buffer; the molecule's coordinate bits are compared before/after", extra_audit=["OptRs.Model.FFObj"])
+
+
+# ---------------------------------------------------------------------------------------------------- C04
+
+def check_C04(res, replay):
+    res.trusted = TB_COMMON + ["optimiser model of C05 (recorded-history correspondence)", "Mathlib (linear arithmetic over the reals for the descent step)",
+                               "axioms audited: subset of {propext, Classical.choice, Quot.sound}"]
+    res.assumptions = ["PARTIAL: frame, fixed point, non-rising remembered energies and the conditional descent step are proved; the unconditional 'never returns a "
+                       "higher-energy structure' on UFF/RB is a property of floating-point trajectories of a non-convex function (the optimiser stops looking at the "
+                       "energy after five evaluations per restart) and is explored on the real optimiser, not proved",
+                       "'energy under that force field' is measured with the very object the optimiser used (C07: its answers do not depend on history)"]
+    L.run_translators(["tables"], res)
+    L.prove(["OptRs.Props.C04", "OptRs.Props.C05"], res, ["OptRs.Model.SD"])
+    if L.build_harness(res) and L.build_model(res):
+        for stream, model in (("sd", "sd"), ("opt", "-")):
+            lines = harness_lines(stream, [], res)
+            if lines is not None:
+                L.compare_lines(lines, model, res, stream)
+        res.cases += int(res.stats.get("opt.optimisations", "0"))
+        res.distinct += int(res.stats.get("opt.moved", "0"))
+    return L.finish(res, "proof", "lake build OptRs.Props.C04 OptRs.Props.C05 + #print axioms audit",
+                    "recorded optimiser histories (as C05) + real optimisations of library and random molecules (as built, distorted 0.02-0.25 A, compressed/stretched "
+                    "0.8-1.25x, united with a second fragment at 2.5-6 A) with UFF and RB inside the property's domain (min distance >= 0.5 A, E0 < 1e4 kcal/mol per atom): "
+                    "energy before/after with the same object, snapshots of atoms, connectivity and terms before/after; non-trivial = the optimiser moved the structure")
